@@ -355,9 +355,9 @@ def run_concrete(case, values):
     inp = case.inputs(env)
     try:
         oc = Outcome("ok", case.run(env, inp))
-    except PathAbort:
+    except (PathAbort, KeyboardInterrupt, SystemExit, MemoryError):
         raise
-    except Exception as e:  # noqa: BLE001
+    except BaseException as e:  # noqa: BLE001
         oc = Outcome("exc", e)
     props = case.props(env, inp, oc)
     return env, inp, oc, props
@@ -413,7 +413,9 @@ def run_case(case: Case, *, timeout_ms=10000, cross=False, validate=True, deadli
         _run_case(case, rep, timeout_ms, cross, validate, deadline)
     except BoundExceeded as e:
         rep.errors.append(f"bound exceeded: {e}")
-    except Exception as e:  # noqa: BLE001
+    except (KeyboardInterrupt, SystemExit):
+        raise
+    except BaseException as e:  # noqa: BLE001 - a worker must always report back
         rep.errors.append("harness error: " + "".join(traceback.format_exception(e))[-1500:])
     rep.wall = time.time() - t0
     return rep
